@@ -23,6 +23,11 @@ ASSUMPTIONS = [
 ]
 
 
+DIVISION_PROPERTIES = {"C05", "C08"}
+DIVISION_DUNDERS = {"__truediv__", "__rtruediv__", "__div__", "__rdiv__", "__mod__", "__rmod__",
+                    "__divmod__", "__rdivmod__"}
+
+
 def load_properties() -> Dict[str, dict]:
     props = {}
     with open(os.path.join(VERIF, "properties.jsonl"), encoding="utf-8") as handle:
@@ -43,6 +48,10 @@ def scope_of(ctx: Ctx, prop: dict):
             for rel, module in ctx.repo.by_relpath.items():
                 if rel.startswith(prefix):
                     roots.extend(f"{module.name}.{q}" for q in module.functions)
+    if prop["id"] not in DIVISION_PROPERTIES:
+        # baseclass.py is an anchor of several properties for its properties/indexing; the polynomial
+        # division operators defined there belong to C05/C08 only
+        roots = [r for r in roots if r.split(".")[-1] not in DIVISION_DUNDERS]
     return roots, ctx.reachable(roots)
 
 
